@@ -440,8 +440,8 @@ static void* modes_reader(void* p) {
   unsigned char b[8];
   int sock = is_socket[mfd_r];
   /* 1. non-blocking: an empty descriptor answers EAGAIN at once */
-  if (how_nb < 3) {
-    set_nonblock(mfd_r, how_nb, 1);
+  if (how_nb < 3 || how_nb == 4) {
+    if (how_nb < 3) set_nonblock(mfd_r, how_nb, 1); /* 4: the socket was created with SOCK_NONBLOCK */
     io_res_t r = io_rw(sock ? SH_RECV : SH_READ, mfd_r, b, 4, 0, 1);
     if (!(r.ret == -1 && (r.err == EAGAIN || r.err == EWOULDBLOCK))) sim_violation("C08-nonblocking-wrong-result", "read of an empty non-blocking descriptor returned %ld errno %d", r.ret, r.err);
   } else {
@@ -449,7 +449,7 @@ static void* modes_reader(void* p) {
     if (!(r.ret == -1 && (r.err == EAGAIN || r.err == EWOULDBLOCK))) sim_violation("C08-nonblocking-wrong-result", "recv(MSG_DONTWAIT) on an empty socket returned %ld errno %d", r.ret, r.err);
   }
   /* 2. back to blocking: the next read waits for the writer */
-  if (how_nb < 3) {
+  if (how_nb < 3 || how_nb == 4) {
     sim_scenario(how_back == 0 ? "modes:back-to-blocking:fcntl-setfl" : how_back == 1 ? "modes:back-to-blocking:fionbio" : "modes:back-to-blocking:getfl-setfl");
     set_nonblock(mfd_r, how_back, 0);
   }
@@ -464,21 +464,27 @@ static void* modes_writer(void* p) {
   while (!phase) RS0(fiber_yield);
   for (int i = 0; i < 3; i++) RS0(fiber_yield);
   unsigned char b[2] = {1, 2};
-  io_rw(SH_WRITE, mfd_w, b, 2, 0, 1);
+  /* the writing end may be in non-blocking mode too (SOCK_NONBLOCK at creation): EAGAIN is then a legal answer */
+  for (int k = 0; k < 1000; k++) {
+    io_res_t r = io_rw(SH_WRITE, mfd_w, b, 2, 0, 1);
+    if (r.ret > 0 || !nonblock_mode[mfd_w]) break;
+    RS0(fiber_yield);
+  }
   return NULL;
 }
 static void run_modes(sim_cfg_t c) {
   int sock = wl_pct(50);
-  how_nb = wl_pick(sock ? 4 : 3);
+  how_nb = wl_pick(sock ? 5 : 3);
   how_back = wl_pick(3);
-  static const char* const hn[] = {"fcntl(F_SETFL,O_NONBLOCK)", "ioctl(FIONBIO)", "F_GETFL|O_NONBLOCK", "MSG_DONTWAIT"};
+  static const char* const hn[] = {"fcntl(F_SETFL,O_NONBLOCK)", "ioctl(FIONBIO)", "F_GETFL|O_NONBLOCK", "MSG_DONTWAIT", "socketpair(SOCK_STREAM|SOCK_NONBLOCK)"};
   sim_describe("threads=%d modes %s nonblock via %s, back via %d preempt=1/%d", c.threads, sock ? "socketpair" : "pipe", hn[how_nb], how_back, c.preempt_inv);
-  sim_scenario(how_nb == 0 ? "modes:nonblock:fcntl-setfl" : how_nb == 1 ? "modes:nonblock:fionbio" : how_nb == 2 ? "modes:nonblock:getfl-setfl" : "modes:nonblock:msg-dontwait");
+  sim_scenario(how_nb == 0 ? "modes:nonblock:fcntl-setfl" : how_nb == 1 ? "modes:nonblock:fionbio" : how_nb == 2 ? "modes:nonblock:getfl-setfl" : how_nb == 3 ? "modes:nonblock:msg-dontwait" : "modes:nonblock:sock-nonblock-at-creation");
   int fds[2];
-  if (sock ? socketpair(AF_UNIX, SOCK_STREAM, 0, fds) : pipe(fds)) sim_violation("C08-setup", "setup failed");
+  if (sock ? socketpair(AF_UNIX, SOCK_STREAM | (how_nb == 4 ? SOCK_NONBLOCK : 0), 0, fds) : pipe(fds)) sim_violation("C08-setup", "setup failed");
   mfd_r = fds[0];
   mfd_w = fds[1];
   is_socket[mfd_r] = is_socket[mfd_w] = sock;
+  if (how_nb == 4) nonblock_mode[mfd_r] = nonblock_mode[mfd_w] = 1;
   fiber_t* a = fiber_create(STK, modes_reader, NULL);
   fiber_t* b = fiber_create(STK, modes_writer, NULL);
   fiber_join(a, NULL);
